@@ -59,6 +59,17 @@ Fixpoint fold_cons (c : cons) : cons :=
   | CLinInt _ _ _ _ => c
   end.
 
+(* ---- the boolean-combinator helpers over a Vec<Constraint> (runtime_api/mod.rs:725-762) ----
+   Constraint::and_all / or_all: None on an empty vector, otherwise
+   `constraints.into_iter().reduce(|acc, c| acc.and(c))` — a LEFT-nested chain of And / Or nodes;
+   the free functions and_all / or_all call them, all_of = and_all, any_of = or_all. *)
+Definition c_and_all (cs : list cons) : option cons :=
+  match cs with [] => None | c :: r => Some (fold_left CAnd r c) end.
+Definition c_or_all (cs : list cons) : option cons :=
+  match cs with [] => None | c :: r => Some (fold_left COr r c) end.
+Definition c_all_of (cs : list cons) : option cons := c_and_all cs.
+Definition c_any_of (cs : list cons) : option cons := c_or_all cs.
+
 (* ---- model programs ---- *)
 Inductive afn := FAdd | FSub | FMul.      (* Model::{add,sub,mul}(x, y) on two variables *)
 Inductive stmt :=
